@@ -380,6 +380,7 @@ GvtChecks(r, g) ==
   << <<g >= gvtSeen[r], "C04", "GVT decreased">>,
      <<gvtCnt[r] + 1 <= Len(gvtVals) => gvtVals[gvtCnt[r] + 1] = g, "C04", "threads were told different GVT values in the same round">>,
      <<g <= PendingMin, "C04", "a message below the reported GVT is still queued, buffered, in hand or in flight">>,
+     <<g <= PendingMin, "C02", "a message below the reported GVT is still queued, buffered, in hand or in flight (between ranks: the distributed GVT overtook a message)">>,
      <<\A q \in Threads : rb[q].on => \A i \in (rb[q].past + 1)..Len(hist[rb[q].lp]) : hist[rb[q].lp][i].t >= g,
        "C04", "a rollback in progress reaches below the reported GVT">> >>
 
